@@ -336,10 +336,10 @@ def _singlet_higher_logs(chk, src, pe, ft):
         c11, c22, c21 = num(cup[1, 1]), num(cup[2, 2]), num(cup[2, 1])
         d11, d22, d21 = -c11, 2 * c11 ** 2 - c22, -c21
         b0p, b1p = num(pe.call("eko.beta.beta_qcd", [(2, 0), nf + 1])), num(pe.call("eko.beta.beta_qcd", [(3, 0), nf + 1]))
-        for N in (4, 6, 8):
-            inst = f"nf={nf},N={N}"
+        for N, msbar in ((4, False), (6, False), (8, False), (4, True), (6, True)):
+            inst = f"nf={nf},N={N}" + (",MSbar masses" if msbar else "")
             try:
-                A = pe.call(fS.qname, [(3, 0), N, nf, L, False])
+                A = pe.call(fS.qname, [(3, 0), N, nf, L, msbar])
                 Am = [sp.Matrix(3, 3, lambda r, c, k=k: sp.expand(_sym(A[k, int(r), int(c)], ft))) for k in range(3)]
                 gam = {}
                 for m in (nf, nf + 1):
